@@ -131,7 +131,7 @@ CHECKS = {
     },
     "C03": {
         "level": "exploration",
-        "rule": "rapid-generated cases: a block tree with wallet transactions, block headers pre-filled (optionally lagging), filter headers pre-filled to a generated height, one honest peer connected first plus 1-5 peers that are honest / lie consistently with a filter omitting an output script / advertise a hash their filter does not match / advertise a hash and serve no filter / lie unprovably (superset filter) / lie only in filter checkpoints / stay silent, from a generated height; events connect / drop / chain growth / reorganisation / clock advance. At every quiescence: filter tip <= block tip, every entry is dSHA256(served filter hash || previous entry) for the block at that height of the current chain, by-hash lookups agree, no banned peer stays connected, the honest peer is never banned; when every liar is provable the committed entries equal ground truth; at the end every provable liar that put a lie on the wire below the final filter tip is banned. Two units: at-tip worlds (<1000 blocks) and checkpointed worlds (1000-2600 blocks). Non-trivial = some liar actually served falsified data; distinct = distinct case JSON Unit bm-sched: the block manager's writeCFHeadersMsg and rollBackToHeight(+header write) run directly on real stores on two goroutines which the harness parks at the client's named yield points (generated: who starts first, where it is held, where the other one is held; also stale batches delivered after a rollback); after every step filter tip <= block tip, every entry belongs to the block at that height of the current chain, no entry of a disconnected block is served, the batch took effect wholly or not at all. Non-trivial there = a step in which the first operation was actually held inside its critical section while the other one ran or blocked.",
+        "rule": "rapid-generated cases: a block tree with wallet transactions, block headers pre-filled (optionally lagging), filter headers pre-filled to a generated height, one honest peer connected first plus 1-5 peers that are honest / lie consistently with a filter omitting an output script / advertise a hash their filter does not match / advertise a hash and serve no filter / lie unprovably (superset filter) / lie only in filter checkpoints / stay silent, from a generated height; events connect / drop / chain growth / reorganisation / clock advance. At every quiescence: filter tip <= block tip, every entry is dSHA256(served filter hash || previous entry) for the block at that height of the current chain, by-hash lookups agree, no banned peer stays connected, the honest peer is never banned; when every liar is provable the committed entries equal ground truth; at the end every provable liar that put a lie on the wire below the final filter tip is banned. Two units: at-tip worlds (<1000 blocks) and checkpointed worlds (1000-2600 blocks, a quarter of them starting 1-30 blocks below height 1000 with level filter headers and growing across it at the tip). Half of the checkpointed worlds are networks with hard-coded filter-header checkpoints at multiples of 1000 (installed through a verif-tag setter), three quarters of them equal to the true filter header, the rest a value no chain produces: an entry committed at such a height must equal the checkpoint whatever the peers serve. Non-trivial = some liar actually served falsified data; distinct = distinct case JSON Unit bm-sched: the block manager's writeCFHeadersMsg and rollBackToHeight(+header write) run directly on real stores on two goroutines which the harness parks at the client's named yield points (generated: who starts first, where it is held, where the other one is held; also stale batches delivered after a rollback); after every step filter tip <= block tip, every entry belongs to the block at that height of the current chain, no entry of a disconnected block is served, the batch took effect wholly or not at all. Non-trivial there = a step in which the first operation was actually held inside its critical section while the other one ran or blocked.",
         "assumptions": NETSIM_ASSUME + [
             "the honest peer is connected before any other peer (dial gate) and never dropped, so it is among the responders of every filter-header query",
             "the matching direction of the hard-coded mainnet/testnet filter-header checkpoints cannot be generated (would need a hash preimage); generated networks have no hard-coded filter checkpoints",
@@ -205,7 +205,7 @@ CHECKS = {
     },
     "C14": {
         "level": "exploration",
-        "rule": "rapid-generated cases: a generated chain-parameter set and chain; target stores pre-filled to generated heights (level or filter store lagging; from the same chain or from a competing branch); block / filter import files over a generated window (start 0 / 1 / next height / any, any end, occasionally different windows for the two files), write batch size 1-40, and one optional defect: wrong network magic, swapped header types, a header mutated in one rule at a position (relinked and re-mined), a flipped byte in either file, or the k-th database commit of the import failing. Oracle: on success both stores equal earlier contents ++ the files' headers up to the file end (all read methods, list model), the block chain passes the reference validator in full context, and a second import changes nothing; on failure all read methods work, every height holds the earlier or the file's entry, level stores stay level, nothing invalid was appended, and (level stores) a later correct import succeeds. Non-trivial = start height > 0, or stores at different heights, or a batch size not dividing the appended range, or an injected fault; distinct = distinct case JSON File write faults: in one case of twelve the n-th write (n = 1-4) to the block or the filter flat file fails after a generated number of bytes (0 ... the whole write); the import must then report failure and leave the stores as the failure rules demand.",
+        "rule": "rapid-generated cases: a generated chain-parameter set and chain; target stores pre-filled to generated heights (level or filter store lagging; from the same chain or from a competing branch); block / filter import files over a generated window (start 0 / 1 / next height / any, any end, occasionally different windows for the two files), write batch size 1-40, and one optional defect: wrong network magic, swapped header types, a header mutated in one rule at a position (relinked and re-mined), a flipped byte in either file, or the k-th database commit of the import failing; in a quarter of the cases the network has a hard-coded filter-header checkpoint at a generated height (equal to the chain's value, or a value no file can carry): a filter header the import appended at that height must equal it, on success and on failure. Oracle: on success both stores equal earlier contents ++ the files' headers up to the file end (all read methods, list model), the block chain passes the reference validator in full context, and a second import changes nothing; on failure all read methods work, every height holds the earlier or the file's entry, level stores stay level, nothing invalid was appended, and (level stores) a later correct import succeeds. Non-trivial = start height > 0, or stores at different heights, or a batch size not dividing the appended range, or an injected fault; distinct = distinct case JSON File write faults: in one case of twelve the n-th write (n = 1-4) to the block or the filter flat file fails after a generated number of bytes (0 ... the whole write); the import must then report failure and leave the stores as the failure rules demand.",
         "assumptions": [
             "the filter store may lag but never leads the block store (its index resolves heights through the block index)",
             "filter headers cannot be validated without the filters: the oracle expects the stores to hold the file's filter headers as written, defects included",
